@@ -148,3 +148,34 @@ def rule_dispose(rep: Report, cls: Fn, extra_field: Optional[str] = None) -> Non
     else:
         rep.ob("B5-dispose", d, f"{cls.name}.dispose chains to Subject.dispose under the lock", sup,
                f"{cls.name}.dispose does not call super().dispose(): the subject stays usable after dispose")
+
+
+def rule_exception_identity(rep: Report, m: Fn, rule: str = "B3-subscribe-branches") -> None:
+    """The recorded exception decides error-vs-completion by identity (`is (not) None`), never by truthiness:
+    an exception object may be falsy (__len__ / __bool__)."""
+    from ..astutil import atoms
+    exc_names = {"self.exception"}
+    for s in sites(m):
+        n = s.node
+        if isinstance(n, ast.Assign) and u(n.value) == "self.exception" and isinstance(n.targets[0], ast.Name):
+            exc_names.add(n.targets[0].id)
+    found = False
+    for s in sites(m):
+        n = s.node
+        if isinstance(n, (ast.If, ast.IfExp, ast.While)):
+            for e, pol in atoms(n.test, True):
+                xs = [e] if not isinstance(e, ast.BoolOp) else e.values
+                for x in xs:
+                    while isinstance(x, ast.UnaryOp) and isinstance(x.op, ast.Not):
+                        x = x.operand
+                    if u(x) in exc_names:
+                        found = True
+                        rep.ob(rule, m, f"{m.parent.name}.{m.name}: `{short(n.test, 40)}` tests the recorded exception by truthiness", False,
+                               "a falsy exception object (an exception class with __len__ / __bool__) is treated as 'no error': the "
+                               "late subscriber is told the subject completed")
+                    elif isinstance(x, ast.Compare) and u(x.left) in exc_names and isinstance(x.ops[0], (ast.Is, ast.IsNot)):
+                        found = True
+                        rep.ob(rule, m, f"{m.parent.name}.{m.name}: `{short(x, 40)}`", True)
+    if not found:
+        rep.ob(rule, m, f"{m.parent.name}.{m.name}: no test on the recorded exception", False,
+               "the late-subscriber branch never distinguishes a recorded error from completion")
